@@ -916,22 +916,30 @@ impl BRC20ProgEngine {
         block_number: u64,
         is_full: bool,
     ) -> Result<Option<BlockResponseED>, Box<dyn Error>> {
-        self.db.read_fn(|db| {
-            db.get_block(block_number)?.map_or(Ok(None), |mut block| {
-                if !is_full {
-                    return Ok(Some(block));
-                }
-                let tx_ids = block.transactions.left().unwrap_or(vec![]);
-                let mut txes = Vec::new();
-                for tx_id in tx_ids {
-                    let Some(tx) = db.get_tx_by_hash(tx_id.bytes)? else {
-                        continue;
-                    };
-                    txes.insert(txes.len(), tx);
-                }
-                block.transactions = Right(txes);
-                Ok(Some(block))
-            })
+        self.db
+            .read_fn(|db| Self::get_block_by_number_locked(db, block_number, is_full))
+    }
+
+    // The lookup itself, for callers that already hold the database lock (the lock must not be taken twice by one thread)
+    fn get_block_by_number_locked(
+        db: &Brc20ProgDatabase,
+        block_number: u64,
+        is_full: bool,
+    ) -> Result<Option<BlockResponseED>, Box<dyn Error>> {
+        db.get_block(block_number)?.map_or(Ok(None), |mut block| {
+            if !is_full {
+                return Ok(Some(block));
+            }
+            let tx_ids = block.transactions.left().unwrap_or(vec![]);
+            let mut txes = Vec::new();
+            for tx_id in tx_ids {
+                let Some(tx) = db.get_tx_by_hash(tx_id.bytes)? else {
+                    continue;
+                };
+                txes.insert(txes.len(), tx);
+            }
+            block.transactions = Right(txes);
+            Ok(Some(block))
         })
     }
 
@@ -943,7 +951,7 @@ impl BRC20ProgEngine {
         self.db.read_fn(|db| {
             db.get_block_number(block_hash)?
                 .map_or(Ok(None), |block_number| {
-                    self.get_block_by_number(block_number.into(), is_full)
+                    Self::get_block_by_number_locked(db, block_number.into(), is_full)
                 })
         })
     }
